@@ -26,7 +26,7 @@ RULE = ("interpolation: label vectors over {0,1,2,3} (isolated, clusters of adja
 ASSUMPTIONS = ["a bad channel's admissible neighbours = non-bad channels whose distance-decay weight exp(-(d/20um)^1.3) is >= 0.005 (d <= 72.1 um)",
                "detection is judged on generated backgrounds only; the feature margins measured on the run are written to the evidence",
                "mode over batches is asserted only without ties (7/3 splits)"]
-REQUIRED = {"interp_cases": 40, "nonfinite_bad_rows": 20, "bad_rows_checked": 100, "untouched_rows_checked": 40, "detection_cases": 20, "file_mode_cases": 2, "spied_batches": 20, "plurality_channels": 1, "file_mode_cbin": 1, "file_mode_np1_own_maxint": 1, "file_mode_short_recordings": 1, "detection_offset_recordings": 8}
+REQUIRED = {"file_mode_headers_announcing_less_than_the_file_holds": 1, "interp_cases": 40, "nonfinite_bad_rows": 20, "bad_rows_checked": 100, "untouched_rows_checked": 40, "detection_cases": 20, "file_mode_cases": 2, "spied_batches": 20, "plurality_channels": 1, "file_mode_cbin": 1, "file_mode_np1_own_maxint": 1, "file_mode_short_recordings": 1, "detection_offset_recordings": 8}
 CASE_TIMEOUT = 200.0
 KINDS = ["3B2", "NP2.1", "NP2.4", "NPultra"]
 
@@ -289,7 +289,13 @@ def run_case(case):
         fmaxint = None
         if fkind == "3B2":
             fmaxint = (512, 2048, 512, 1024)[ci % 4]       # NP1-family headers that announce their own ADC range (imMaxInt)
-        rec = G.make(rng, kind=fkind, sites=fsites, gains=fgains, ns=ns, raw=np.zeros((1, 1), np.int16), nsync=fnsync, maxint=fmaxint)
+        # round 21: a flat recording whose header was saved while the file was still being appended to - it announces 40-70 % of the samples the
+        # file holds.  The file is what it physically holds: the batches are spread over ALL of it and the labels are the mode over those
+        stale = ci % 4 == 1 and not short
+        claim = int(ns * float(rng.uniform(0.4, 0.7))) if stale else None
+        if stale:
+            res.count("file_mode_headers_announcing_less_than_the_file_holds")
+        rec = G.make(rng, kind=fkind, sites=fsites, gains=fgains, ns=ns, raw=np.zeros((1, 1), np.int16), nsync=fnsync, maxint=fmaxint, claim_ns=claim)
         if fmaxint not in (None, 512):
             res.count("file_mode_np1_own_maxint")
         if fkind == "3B2":
@@ -334,6 +340,8 @@ def run_case(case):
         b = G.write(rec, d)
         use_c = bool((ci // 2) % 2)                                # compressed and flat recordings alternate (both in every run)
         label = f"file mode ({fkind}, {fnsync} sync channel): ch {often} {kind_often} in 7/10 batches, ch {seldom} {kind_seldom} in 3/10 batches, {'cbin' if use_c else 'bin'}"
+        if stale:
+            label += f" [header announces {claim} of {ns} samples]"
         import spikeglx
         try:
             if use_c:
